@@ -633,6 +633,10 @@ impl G2Projective {
         } else {
             scalars.len()
         };
+        // The empty sum is the identity (blst's `from`/`mult` index the first point).
+        if n == 0 {
+            return Self::identity();
+        }
 
         let points =
             unsafe { std::slice::from_raw_parts(points.as_ptr() as *const blst_p2, points.len()) };
